@@ -326,8 +326,22 @@ func (e *Engine) evalPure(st *State, fr *Frame, fn *ssa.Function, bind []Value, 
 		v    Value
 	}
 	var outs []pr
+	sideSeen := map[*smt.Term]bool{}
 	e.exec(nf, fn.Blocks[0], 0, scratch, func(s2 *State, res []Value) {
-		outs = append(outs, pr{e.C.And(s2.PC[base:]...), pack(res)})
+		var conds []*smt.Term
+		for i := base; i < len(s2.PC); i++ {
+			if s2.IsBranch[i] {
+				conds = append(conds, s2.PC[i])
+			} else if !sideSeen[s2.PC[i]] {
+				// facts assumed while evaluating (axiom instances of uninterpreted symbols,
+				// well-formedness of loaded slices) hold unconditionally: hand them to the caller
+				sideSeen[s2.PC[i]] = true
+				if !s2.PC[i].HasBound() {
+					st.Assume(s2.PC[i])
+				}
+			}
+		}
+		outs = append(outs, pr{e.C.And(conds...), pack(res)})
 	})
 	if len(outs) == 0 {
 		e.fail("pure function %s has no returning path", fn)
